@@ -394,6 +394,15 @@ func goldens() []golden {
 	ut := cqlref.NewUDT("ks", "u", []string{"a", "b"}, []*cqlref.Type{S(cqlref.Int), S(cqlref.Text)})
 	add("udt(7,NULL)", ut, cqlref.SeqValue(i64(7), null), cqlref.V4, "00000004 00000007 ffffffff")
 	add("udt(7,'x')", ut, cqlref.SeqValue(i64(7), txt("x")), cqlref.DSE2, "00000004 00000007 00000001 78")
+	// tuples and udts are "successive [bytes]" whatever the protocol version: [bytes] is an [int] length in
+	// every version (only COLLECTION counts and element lengths are [short] in v2). The type codes do not exist
+	// in v2 result metadata, but the value codecs accept the version, and Cassandra's TupleType / UserType
+	// serialization does not depend on it.
+	add("tuple(5,'a') v2", tt, cqlref.SeqValue(i64(5), txt("a")), cqlref.V2, "00000004 00000005 00000001 61")
+	add("tuple(NULL,'') v2", tt, cqlref.SeqValue(null, txt("")), cqlref.V2, "ffffffff 00000000")
+	add("udt(7,NULL) v2", ut, cqlref.SeqValue(i64(7), null), cqlref.V2, "00000004 00000007 ffffffff")
+	tl2 := cqlref.NewTuple(li, S(cqlref.Int))
+	add("tuple<list<int>,int>([1],2) v2", tl2, cqlref.SeqValue(cqlref.SeqValue(i64(1)), i64(2)), cqlref.V2, "00000008 0001 0004 00000001 00000004 00000002")
 	tl := cqlref.NewTuple(li, S(cqlref.Varint))
 	add("tuple<list<int>,varint>([1],-1)", tl, cqlref.SeqValue(cqlref.SeqValue(i64(1)), i64(-1)), cqlref.V4, "0000000c 00000001 00000004 00000001 00000001 ff")
 	return out
